@@ -34,7 +34,7 @@ ASSUMPTIONS = [
 
 
 def n_cases(ctx):
-    return (800, 100, 100) if ctx.quick else (12000, 1000, 1000)
+    return (500, 100, 100) if ctx.quick else (11000, 1000, 1000)
 
 
 def n_calls(ctx):
@@ -149,6 +149,8 @@ def correspondence(ctx, info):
         cases += json.loads(f.read_text())
     n_corpus = len(cases)
     nu, na, nl = n_cases(ctx)
+    cases += G.boundary_cases(r, not ctx.quick)
+    cases += [G.one_leaf_case(g) for _ in range(nu // 4)]
     cases += [g.case() for _ in range(nu)] + [g.app_case() for _ in range(na)] + [g.lin_case() for _ in range(nl)]
     payload = [{k: v for k, v in c.items() if k != "shape"} for c in cases]
     impl = []
@@ -365,6 +367,15 @@ def generate(ctx):
 def run(ctx):
     generate(ctx)
     info = ctx.coq_props()
+    import tr_arms
+    arm_problems = tr_arms.diff(ctx.int_src("tys/ty.py"))
     extras = correspondence(ctx, info)
+    extras["unify_match_arms"] = "as modelled (12 arms of unify, 3 of _unify_args)" if not arm_problems else arm_problems
+    if arm_problems and not ctx.violations:
+        # a new / changed `case` arm is behaviour the model does not describe; the search above found no input
+        ctx.report("unify-arms:" + ";".join(arm_problems), "correspondence",
+                   "the `match` arms of unify/_unify_args differ from the modelled ones", {"differences": arm_problems,
+                    "searched": "boundary pairs of all nullary constructors in all contexts, one-leaf stream, random stream"},
+                   found_input=False)
     cov = proof_coverage(info, "make -f Makefile.C12 C12/Props.vo && coqc C12/Props.v (Print Assumptions)", TRUSTED, **extras)
     return ctx.finish(LEVEL, cov, ASSUMPTIONS)
